@@ -37,8 +37,11 @@ def random_scripts(n, seed):
     out = []
     for i in range(n):
         l0 = rng.randint(0, 3)
-        out.append({"L0": l0, "N0": rng.choice([1, 2, 3, 4, 5, 6, 8, 10]), "LMax": l0 + rng.randint(0, 3),
-                    "fixed": rng.random() < 0.15, "gen": rng.randint(0, 2 ** 30), "steps": []})
+        sc = {"L0": l0, "N0": rng.choice([1, 2, 3, 4, 5, 6, 8, 10]), "LMax": l0 + rng.randint(0, 3),
+              "fixed": rng.random() < 0.15, "gen": rng.randint(0, 2 ** 30), "steps": []}
+        if i % 5 == 4:
+            sc.update(big=1, N0=rng.choice([100, 101, 200]), L0=min(l0, 2), LMax=min(l0, 2) + rng.randint(0, 1), fixed=False)
+        out.append(sc)
     return out
 
 
